@@ -42,6 +42,18 @@ CHECKS = {
             "Situations the documentation leaves open (multi-byte internal accesses crossing 0xFF, invalid BCD) are skipped and "
             "counted; the reference (spec/operands.py, spec/isa.py) is written from README tables and is part of the trusted base.",
             "DESIGN.md section 4, C03"),
+    "C04": ("exploration",
+            "exhaustive enumeration against a reference interpreter written from the README instruction tables: every structural "
+            "shape x state palette (values, flags, side effects, frame), complete 2^17 (a,b,carry) sweeps for 8-bit operations, full "
+            "palette cross products for wide forms, I in 1..4 x byte palettes for counted forms, stack/call families",
+            "The Python core executes the lifted IL of each case and every register, C/Z and every written byte is compared with the "
+            "documented result; anything else changing is a frame violation. The 8-bit value space is covered completely for the "
+            "rotated operation(s) (all nine in thorough) and on a dense grid otherwise; multi-byte operations are specified "
+            "arithmetically (big-integer / BCD / digit shift), not as byte loops, so carry-chain bugs cannot hide.",
+            "The reference (spec/isa.py) is trusted and only constrains what the README defines (don't-cares: C after SWAP, C/Z after "
+            "HALT/OFF, RESET vector, DADL carry-in, F bits 2..7; undocumented situations are skipped and counted); 16/20/24-bit values "
+            "by boundary palettes.",
+            "DESIGN.md section 4, C04"),
     "C05": ("exploration",
             "exhaustive enumeration of encodings x boundary addresses x flag values x displacement/target palettes; static "
             "metadata of get_instruction_info compared with the PC reached by the real Emulator; inverse-pair runs",
